@@ -167,16 +167,41 @@ arithmetic), line_base −128..127, line_range 1..255, opcode_base 1..255 with a
 `standard_opcode_lengths`, unknown standard/extended opcodes, address sizes 1/2/4/8. -/
 theorem rows_refine (h : Params) (hv : h.Valid) (bs : Bytes) (prog : List Instr)
     (hdec : decodeAll h (bs.length + 1) bs = .ok prog) (hwf : WF h prog = true) :
-    run h bs = (rows h prog).map (fun r => Ev.row (toRow r)) := by
-  unfold run trace
-  rw [traceLoop_decodeAll h _ _ _ _ hdec, reset_new]
-  have hinit : Row.new h = toRow (init h) := by simp [Row.new, toRow, init]
-  have hmax1 : 1 ≤ h.maxOps := hv.2.2.2.2.2.1
-  rw [hinit, traceInstrs_spec h hv prog (init h) (by simp [init]; omega)
-    (by rw [regsOk_iff]; simp [init]; exact Nat.two_pow_pos _) hwf]
-  simp only [rows, List.filter_map, Ev.visible, Function.comp_def]
+    run h bs = (rows h prog).map (fun r => Ev.row (toRow r)) ∧
+    trace h bs = (rows h prog).map (fun r => Ev.row (toRow r)) := by
+  have htrace : trace h bs = (rows h prog).map (fun r => Ev.row (toRow r)) := by
+    unfold trace
+    rw [traceLoop_decodeAll h _ _ _ _ hdec, reset_new]
+    have hinit : Row.new h = toRow (init h) := by simp [Row.new, toRow, init]
+    have hmax1 : 1 ≤ h.maxOps := hv.2.2.2.2.2.1
+    rw [hinit, traceInstrs_spec h hv prog (init h) (by simp [init]; omega)
+      (by rw [regsOk_iff]; simp [init]; exact Nat.two_pow_pos _) hwf]
+    rfl
+  refine ⟨?_, htrace⟩
+  unfold run
+  rw [htrace]
+  simp only [List.filter_map, Ev.visible, Function.comp_def]
   congr 1
   exact List.filter_eq_self.mpr (fun _ _ => rfl)
+
+/-- … and the file table: the entries `DW_LNE_define_file` appends while the program runs are
+exactly the Spec's, in order -/
+theorem files_refine (h : Params) (bs : Bytes) (prog : List Instr)
+    (hdec : decodeAll h (bs.length + 1) bs = .ok prog) :
+    Line.definedFiles h (bs.length + 1) bs = Spec.Line.definedFiles prog :=
+  definedFiles_decodeAll h _ bs prog hdec
+
+/-- corollary: a well-formed program never runs into finding C04-1 — what the caller observes is
+monotone inside every sequence it can see -/
+theorem wf_monotone_observed (h : Params) (hv : h.Valid) (bs : Bytes) (prog : List Instr)
+    (hdec : decodeAll h (bs.length + 1) bs = .ok prog) (hwf : WF h prog = true) :
+    MonoObserved h.addrSize 0 (run h bs) := by
+  apply monotone_observed_partial
+  rw [(rows_refine h hv bs prog hdec hwf).2]
+  have : (rows h prog).map (fun r => Ev.row (toRow r)) = ((rows h prog).map toRow).map Ev.row := by
+    rw [List.map_map]; rfl
+  rw [this]
+  exact noHiddenEnd_map_row _
 
 /-! ### non-vacuity of `rows_refine`: concrete programs that decode, are well-formed, and whose
 matrix is what one computes by hand from §6.2 -/
@@ -212,7 +237,7 @@ example : (rows hdrVliw progV).map (fun r => (r.address, r.opIndex, r.line, r.en
     [(264, 1, 4, false), (292, 0, 6, false), (300, 1, 6, false), (328, 0, 3, false),
      (328, 0, 3, true)] := by decide
 example : run hdrVliw bytesV = (rows hdrVliw progV).map (fun r => Ev.row (toRow r)) :=
-  rows_refine hdrVliw (by decide) bytesV progV (by decide) (by decide)
+  (rows_refine hdrVliw (by decide) bytesV progV (by decide) (by decide)).1
 
 /-- **decode ∘ encode = id**: the decoder (`LineInstruction::parse`) inverts the §6.2.5 encoding
 of every instruction the header can express (`EncOk`: the opcode number is below `opcode_base` for
@@ -230,7 +255,7 @@ model over the §6.2.5 *encoding* of the program yields exactly the rows of the 
 theorem rows_refine_encoded (h : Params) (hv : h.Valid) (prog : List Instr)
     (henc : ∀ i ∈ prog, EncOk h i) (hwf : WF h prog = true) :
     run h (encodeProg h prog) = (rows h prog).map (fun r => Ev.row (toRow r)) := by
-  apply rows_refine h hv _ prog _ hwf
+  refine (rows_refine h hv _ prog ?_ hwf).1
   exact decodeAll_encodeProg h hv prog henc _ (by have := encodeProg_length h prog; omega)
 
 example : ∀ i ∈ prog4, EncOk hdr4 i := by decide
